@@ -30,6 +30,14 @@ def str_lit(s):
     return _str_lits[s]
 
 
+def lit_text(term):
+    """python text of a string-literal constant, or None"""
+    for k, c in _str_lits.items():
+        if c is term or c.eq(term):
+            return k
+    return None
+
+
 def cls_const(name):
     if name not in _cls_consts:
         _cls_consts[name] = z3.Const('cls!' + name, Cls)
@@ -72,7 +80,12 @@ def background():
         for b, cb in cl:
             out.append(subclass(ca, cb) == z3.BoolVal(is_subclass_py(a, b)))
     x = z3.Const('s!x', Str)
+    y = z3.Const('s!y', Str)
     out.append(z3.ForAll([x], len_s(x) >= 0, patterns=[len_s(x)]))
+    out.append(z3.ForAll([x, y], len_s(concat_s(x, y)) == len_s(x) + len_s(y), patterns=[concat_s(x, y)]))
+    if '' in _str_lits:
+        # the empty string is the only string of length 0
+        out.append(z3.ForAll([x], z3.Implies(len_s(x) == 0, x == _str_lits['']), patterns=[len_s(x)]))
     return out
 
 
@@ -154,7 +167,9 @@ def discharge_one(args):
 
 def discharge(queries, budget_s=10.0, procs=None, want_model=True, portfolio=True):
     """returns {name: (status, trail, model, reason)}; status unsat = proved"""
-    procs = procs or min(16, os.cpu_count() or 1)
+    procs = procs or int(os.environ.get('PYVC_PROCS', 0)) or min(16, os.cpu_count() or 1)
+    if os.environ.get('PYVC_NO_PORTFOLIO'):
+        portfolio = False
     jobs = [(q.name, q.smt2, budget_s, want_model, portfolio) for q in queries]
     out = {}
     if procs > 1 and len(jobs) > 1:
